@@ -319,8 +319,24 @@ def rule_r6(ctx):
                 if isinstance(src, ast.Name):
                     nos.add(src.id)
             free = an and no and any((cmp_fact(t, pol) or ("",))[0] == "in" and cmp_fact(t, pol)[1] in nos and cmp_fact(t, pol)[3] is False and tail_is(cmp_fact(t, pol)[2], cont.split(".")[-1]) for (t, pol) in guards_of(g, an[0]))
+            if not free and adds[0].value.args and isinstance(adds[0].value.args[0], ast.Name):
+                # thread_no = next(g) with g = (n for n in <numbers> if n not in threads): free by construction
+                src = resolve_locals(f, adds[0].value.args[0])
+                if isinstance(src, ast.Call) and dotted(src.func) == "next" and src.args:
+                    gsrc = resolve_locals(f, src.args[0]) if isinstance(src.args[0], ast.Name) else src.args[0]
+                    if isinstance(gsrc, ast.GeneratorExp) and len(gsrc.generators) == 1 and isinstance(gsrc.elt, ast.Name) and isinstance(gsrc.generators[0].target, ast.Name) \
+                            and gsrc.elt.id == gsrc.generators[0].target.id:
+                        for c0 in gsrc.generators[0].ifs:
+                            cf = cmp_fact(c0, True)
+                            if cf and cf[0] == "in" and cf[1] == gsrc.elt.id and cf[3] is False and tail_is(cf[2], cont.split(".")[-1]):
+                                free = True
+            any_member_test = any(isinstance(x, ast.Compare) and any(isinstance(o, (ast.In, ast.NotIn)) for o in x.ops) and tail_is(x.comparators[0], cont.split(".")[-1]) for x in ast.walk(f.node))
             if free:
                 ctx.r.ok(rid, "a new worker gets a number that is not in the set", f.loc(adds[0]))
+            elif not any_member_test:
+                # no membership test on the set at all: the free number is found some other way (a generator, a counter
+                # object) that this rule does not read
+                raise AnalysisError("set_thread_count does not pick the new worker's number by a membership test on the set: not decided")
             else:
                 ctx.r.violation(rid, key_of(f, None, "worker-number-not-free"), "the number registered for a new worker (%s) is not established to be free (`while %s in %s` skipped or weakened): two workers share one entry, the set under-counts and resizing / shutdown never converge" % (no, no, cont), f.loc(adds[0]))
         else:
